@@ -56,7 +56,7 @@ func H_C04_servers() {
 	}
 	issuer := rt.Havoc[*x509.Certificate]("issuer")
 	l2Cert, l2Issuer = cert, issuer
-	r := CertCheckStatus(context.Background(), cert, issuer, CertCheckStatusOptions{HTTPClient: &http.Client{}})
+	r := CertCheckStatus(rt.EnvContext{Tag: "caller"}, cert, issuer, CertCheckStatusOptions{HTTPClient: &http.Client{}})
 	rt.Assert(r != nil && r.RevocationMethod == result.RevocationMethodOCSP, "C04.L2.method")
 	for i, s := range srvLog {
 		rt.Assert(rt.StrEq(s.server, cert.OCSPServer[i]), "C04.L2.order")
@@ -85,6 +85,6 @@ func H_C04_servers() {
 func H_C04_noserver() {
 	cert := rt.Havoc[*x509.Certificate]("cert")
 	cert.OCSPServer = nil
-	r := CertCheckStatus(context.Background(), cert, rt.Havoc[*x509.Certificate]("issuer"), CertCheckStatusOptions{HTTPClient: &http.Client{}})
+	r := CertCheckStatus(rt.EnvContext{Tag: "caller"}, cert, rt.Havoc[*x509.Certificate]("issuer"), CertCheckStatusOptions{HTTPClient: &http.Client{}})
 	rt.Assert(r.Result == result.ResultNonRevokable && len(r.ServerResults) == 1 && r.ServerResults[0].Result == result.ResultNonRevokable && len(srvLog) == 0, "C04.L2.noserver")
 }
